@@ -37,14 +37,14 @@ E1(n, id) == [ev |-> n, id |-> id]
 
 Finished == budget.fin
 
-AllQuiet == /\ \A id \in CallIds : call[id].pc \in {"new", "done"}
+AllQuiet == /\ pend = {}
+            /\ \A id \in CallIds : call[id].pc \in {"new", "done"}
             /\ \E id \in CallIds : call[id].pc = "done"
             /\ \A id \in CallIds : srv[id].st # "run"
 
 (* One wrapper per action of RpcCalls, so that TLC reports coverage per action. *)
 Go == ~Finished
 Same == UNCHANGED <<hist, budget>>
-IDeadlinePass(id) == Go /\ DeadlinePass(id) /\ Same
 ICtxDeadline(id) == Go /\ CtxDeadline(id) /\ Same
 ISetupExpired(id) == Go /\ SetupExpired(id) /\ Same
 ISetupCall(id) == Go /\ SetupCall(id) /\ Same
@@ -65,21 +65,26 @@ IConnect(c) == Go /\ Connect(c) /\ Same
 IRecvHdr(c) == Go /\ RecvHdr(c) /\ Same
 IServerSend(c) == Go /\ ServerSend(c) /\ Same
 IServerSendLetsFin(c) == Go /\ ServerSendLetsFin(c) /\ Same
+ICliCloseDo(c) == Go /\ CliCloseDo(c) /\ Same
+ICutDo(c) == Go /\ CutDo(c) /\ Same
+IProxyDo(c) == Go /\ ProxyDo(c) /\ Same
+ISrvShutdownDo == Go /\ SrvShutdownDo /\ Same
+ISrvCloseDo == Go /\ SrvCloseDo /\ Same
 ISrvConnStop(c) == Go /\ SrvConnStop(c) /\ Same
 
 VInvoke(id, t, f) ==
   /\ Go /\ (t => id \in TmoCalls) /\ (f => id \in FFCalls)
   /\ Invoke(id, t, f) /\ Ev([ev |-> "start", id |-> id, cl |-> MCOwnerOf(id), tmo |-> t, ff |-> f]) /\ UNCHANGED budget
-VCtxCancel(id) == Go /\ id \in CancelCalls /\ call[id].ctx = "live" /\ CtxCancel(id) /\ Ev(E1("cancel", id)) /\ UNCHANGED budget
+VCtxCancel(id) == Go /\ id \in CancelCalls /\ call[id].ctx = "live" /\ call[id].pc \in {"inv", "wait"} /\ CtxCancel(id) /\ Ev(E1("cancel", id)) /\ UNCHANGED budget
 VReturnResult(id) == Go /\ ReturnResult(id) /\ Ev([ev |-> "ret", id |-> id, res |-> call'[id].rv.k, got |-> call'[id].rv.from]) /\ UNCHANGED budget
 VReturnPending(id) == Go /\ ReturnPending(id) /\ Ev([ev |-> "ret", id |-> id, res |-> call'[id].rv.k, got |-> call'[id].rv.from]) /\ UNCHANGED budget
 VHandlerEnter(id) == Go /\ HandlerEnter(id) /\ Ev(E1("enter", id)) /\ UNCHANGED budget
 VHandlerExit(id, o) == Go /\ HandlerExit(id, o) /\ Ev([ev |-> "exit", id |-> id, out |-> o]) /\ UNCHANGED budget
 VCliCloseBegin(c) == /\ Go /\ budget.close < MaxCloses /\ CliCloseBegin(c) /\ Ev([ev |-> "close", side |-> c])
                      /\ budget' = [budget EXCEPT !.close = @ + 1]
-VCut(c) == /\ Go /\ budget.cut < MaxCuts /\ Cut(c) /\ Ev([ev |-> "cut", cl |-> c])
+VCut(c) == /\ Go /\ budget.cut < MaxCuts /\ ~SyncPending /\ Cut(c) /\ Ev([ev |-> "cut", cl |-> c])
            /\ budget' = [budget EXCEPT !.cut = @ + 1]
-VSetProxy(c, m) == /\ Go /\ budget.proxy < MaxProxy /\ proxy[c] # m /\ SetProxy(c, m)
+VSetProxy(c, m) == /\ Go /\ budget.proxy < MaxProxy /\ proxy[c] # m /\ ~SyncPending /\ SetProxy(c, m)
                    /\ Ev([ev |-> "proxy", cl |-> c, mode |-> m])
                    /\ budget' = [budget EXCEPT !.proxy = @ + 1]
 VSrvShutdown == Go /\ AllowShutdown /\ SrvShutdown /\ Ev([ev |-> "shutdown", side |-> "server"]) /\ UNCHANGED budget
@@ -92,7 +97,6 @@ GenFinish == /\ Go /\ GenMode /\ AllQuiet
 
 MCNext ==
   \/ \E id \in CallIds :
-        \/ IDeadlinePass(id)
         \/ ICtxDeadline(id)
         \/ ISetupExpired(id)
         \/ ISetupCall(id)
@@ -118,8 +122,10 @@ MCNext ==
         \/ IServerSend(c)
         \/ IServerSendLetsFin(c)
         \/ ISrvConnStop(c)
+        \/ ICliCloseDo(c) \/ ICutDo(c) \/ IProxyDo(c)
         \/ VCliCloseBegin(c) \/ VCut(c)
         \/ \E m \in {"pass", "refuse"} : VSetProxy(c, m)
+  \/ ISrvShutdownDo \/ ISrvCloseDo
   \/ VSrvShutdown \/ VSrvCloseBegin \/ GenFinish
 
 MCSpec == MCInit /\ [][MCNext]_mcvars /\ Fairness
